@@ -196,6 +196,9 @@ class SimulatorWorkerThread(Thread):
         while not self._finalized:
             # wait till wakeup, e.g., to start the simulation
             self.__wakeup_flag.wait()
+            # consume the wake-up now: one that arrives while this iteration
+            # is still busy must not be lost
+            self.__wakeup_flag.clear()
             self._running = True
             if not self._finalized:
                 if self._job._replication_state != ReplicationState.ENDING:
@@ -217,7 +220,6 @@ class SimulatorWorkerThread(Thread):
                     self._job.fire_timed(self._job.simulator_time,
                         ReplicationInterface.END_REPLICATION_EVENT, None)
                     self._finalized = True
-            self.__wakeup_flag.clear()
             self._running = False
         # end while
     # end run()
